@@ -292,8 +292,8 @@ Proof.
         apply in_map_iff in Hin. destruct Hin as [r [E _]]. inversion E. left. reflexivity.
   - destruct (leading st) eqn:HL; [|exact HI].
     simpl in Hok. apply (commit_fold ents st HI HL (Hok HL)).
-  - destruct HI as [Hf Hp Hlf Hmfl Hfl Hc He Hq Hm Hn Hperm Hr Herr].
-    destruct (leading st) eqn:HL; [|constructor; assumption].
+  - destruct (leading st) eqn:HL; [|exact HI].
+    destruct HI as [Hf Hp Hlf Hmfl Hfl Hc He Hq Hm Hn Hperm Hr Herr].
     constructor; simpl.
     + exact Hf.
     + rewrite Hp, (Hlf eq_refl). simpl. rewrite app_nil_r. reflexivity.
